@@ -30,7 +30,8 @@ pub fn run_command_line(sh: &mut Shell, line: &str, tty: bool,
     let mut cr_list = Vec::new();
     let mut status = 0;
     let mut sep = String::new();
-    for token in parsers::parser_line::line_to_cmds(line) {
+    let cmds = parsers::parser_line::line_to_cmds(line);
+    for (i, token) in cmds.iter().enumerate() {
         if token == ";" || token == "&&" || token == "||" {
             sep = token.clone();
             continue;
@@ -46,6 +47,12 @@ pub fn run_command_line(sh: &mut Shell, line: &str, tty: bool,
         status = cr.status;
         sh.previous_status = status;
         cr_list.push(cr);
+        // after `set -e` a failing pipeline that ends its `&&` / `||` list
+        // ends the script: nothing after it on the line runs
+        if status != 0 && sh.exit_on_error
+                && (i + 1 == cmds.len() || cmds[i + 1] == ";") {
+            break;
+        }
     }
     cr_list
 }
